@@ -16,9 +16,12 @@
        hypotheses from the beam-CX clause and from the beam clauses with a single-point e or n axis.
        Finiteness of an extrapolated DOUBLE is likewise only checked on the implementation (a value
        in Q is finite by construction).
-   (C) raysect's 1-D cubic interpolation in Gallina, through-knots theorem, fast evaluator. *)
+   (C) raysect's 1-D cubic interpolation in Gallina, through-knots theorem, fast evaluator.
+   (D) raysect's bicubic / tricubic kernels (generated from its source), through-knots theorems; the grid-point
+       clauses of ALL rate families under the log10 / 10** laws alone. *)
 Require Import Cherab.Common.Qx.
 Require Import Cherab.Model.C07_Policy Cherab.Model.C07_Rates Cherab.Model.C07_Check Cherab.Model.C07_Cubic.
+Require Import Cherab.Model.C07_TensorGen Cherab.Model.C07_Tensor Cherab.Proofs.C07_Tensor.
 Require Import Cherab.Proofs.C07_Policy Cherab.Proofs.C07_Rates Cherab.Proofs.C07_Check Cherab.Proofs.C07_Cubic.
 From Coq Require Import Qabs.
 Open Scope Q_scope.
@@ -66,6 +69,12 @@ Theorem C07_policy_isotope_wavelength :
   (hi = true -> w = WIso) /\ (w = WEl -> f = true /\ hi = false /\ he = true) /\ w <> WNone.
 Proof. exact wavelength_lookup_isotope. Qed.
 Print Assumptions C07_policy_isotope_wavelength.
+
+(* the linear-time check the Gen tie lemma runs (rows listed in the order of the cases) implies the lookup-based
+   well-formedness that the policy theorems above are stated with *)
+Theorem C07_policy_aligned_check_sound : forall cs t, wf_aligned cs t = true -> wf_on cs t = true.
+Proof. exact wf_aligned_sound. Qed.
+Print Assumptions C07_policy_aligned_check_sound.
 
 (* one long-lived provider: for EVERY history of repository additions and accessor calls, the call
    made after the history [ops] returns what the model gives for its own arguments and the repository
@@ -290,6 +299,77 @@ Print Assumptions C07_beam_node_single_axis_cubic.
 Theorem C07_cubic1d_fast_evaluator : forall n k v x, cubic1_r n k v x == cubic1 n k v x.
 Proof. exact cubic1_r_eq. Qed.
 Print Assumptions C07_cubic1d_fast_evaluator.
+
+(* ------------------------------------------------------------------- (D) bicubic / tricubic *)
+(* raysect's Interpolator2DArray / 3DArray 'cubic' (cell selection, normalised coordinates, the 16 / 64 coefficient
+   formulas and the polynomial generated from raysect's source text, Model/C07_TensorGen.v) return the stored value at
+   EVERY knot, for every grid size >= 2 per axis, every increasing knot vectors, every table and WHATEVER the
+   derivative estimates (these are universally quantified, not modelled).  These were the 2-D / 3-D 'through knots'
+   oracle laws. *)
+Theorem C07_bicubic_through_knots :
+  forall D nx ny kx ky v i j,
+  (2 <= nx)%nat -> (2 <= ny)%nat -> increasingq nx kx -> increasingq ny ky -> (i < nx)%nat -> (j < ny)%nat ->
+  cubic2 D nx ny kx ky v (kx i) (ky j) == v i j.
+Proof. exact cubic2_knot. Qed.
+Print Assumptions C07_bicubic_through_knots.
+
+Theorem C07_tricubic_through_knots :
+  forall D nx ny nz kx ky kz v i j l,
+  (2 <= nx)%nat -> (2 <= ny)%nat -> (2 <= nz)%nat -> increasingq nx kx -> increasingq ny ky -> increasingq nz kz ->
+  (i < nx)%nat -> (j < ny)%nat -> (l < nz)%nat ->
+  cubic3 D nx ny nz kx ky kz v (kx i) (ky j) (kz l) == v i j l.
+Proof. exact cubic3_knot. Qed.
+Print Assumptions C07_tricubic_through_knots.
+
+(* the grid-point clauses with raysect's cubic in every slot: no interpolation hypothesis is left, only log_laws.
+   2-D families (ionisation, recombination, thermal CX, line / continuum / CX power, excitation / recombination PEC),
+   axes of >= 2 points (what Interpolator2DArray accepts) *)
+Theorem C07_rate2_node_bicubic :
+  forall lg ex ladd, log_laws lg ex ladd ->
+  forall D p cf wl ext xs ys tbl i j, 0 < cf -> 0 < wl ->
+  axis xs -> axis ys -> (2 <= length xs)%nat -> (2 <= length ys)%nat ->
+  (i < length xs)%nat -> (j < length ys)%nat -> 0 < at2 tbl i j ->
+  same (eval2 Q lg ex (cubic2 D) (conv p cf wl) ext xs ys tbl (nth i xs 0) (nth j ys 0))
+       (Val (conv p cf wl (at2 tbl i j))).
+Proof. intros; apply (eval2_node_bicubic lg ex ladd); auto using conv_pos. Qed.
+Print Assumptions C07_rate2_node_bicubic.
+
+Theorem C07_rate3_node_tricubic :
+  forall lg ex ladd, log_laws lg ex ladd ->
+  forall D p cf wl ext xs ys zs tbl i j k, 0 < cf -> 0 < wl ->
+  axis xs -> axis ys -> axis zs -> (2 <= length xs)%nat -> (2 <= length ys)%nat -> (2 <= length zs)%nat ->
+  (i < length xs)%nat -> (j < length ys)%nat -> (k < length zs)%nat -> 0 < at3 tbl i j k ->
+  same (eval3 Q lg ex (cubic3 D) (conv p cf wl) ext xs ys zs tbl (nth i xs 0) (nth j ys 0) (nth k zs 0))
+       (Val (conv p cf wl (at3 tbl i j k))).
+Proof. intros; apply (eval3_node_tricubic lg ex ladd); auto using conv_pos. Qed.
+Print Assumptions C07_rate3_node_tricubic.
+
+(* beam stopping / population / emission, EVERY axis length >= 1 (Constant2D, IsoMapper2D + 1-D cubic, bicubic) *)
+Theorem C07_beam_node_cubic :
+  forall lg ex ladd, log_laws lg ex ladd ->
+  forall D p cf wl ext es ns ts sen st sref i j k, 0 < cf -> 0 < wl -> 0 < sref ->
+  axis es -> axis ns -> axis ts -> (i < length es)%nat -> (j < length ns)%nat -> (k < length ts)%nat ->
+  0 < at2 sen i j -> 0 < nth k st 0 ->
+  same (evalbeam Q lg ex ladd cubic1 (cubic2 D) (conv p cf wl) ext es ns ts sen st sref
+                 (nth i es 0) (nth j ns 0) (nth k ts 0))
+       (Val (conv p cf wl (at2 sen i j * nth k st 0 / sref))).
+Proof. intros lg ex ladd LL; intros; apply (evalbeam_node_cubic_all lg ex ladd LL); auto. Qed.
+Print Assumptions C07_beam_node_cubic.
+
+(* rounding-aware form of the 2-D grid-point clause: if 10 ** log10 v is only within relative eps of v (what libm
+   gives on doubles; the known finding about log10 at an end grid point lives in exactly this gap), the value at
+   every grid point is within relative eps of the stored value after conversion -- no exact log/exp law assumed *)
+Theorem C07_rate2_node_bicubic_rounded :
+  forall lg ex eps,
+  (forall a b, a == b -> ex a == ex b) -> (forall a b, 0 < a -> a < b -> lg a < lg b) ->
+  (forall v, 0 < v -> Qabs (ex (lg v) - v) <= eps * v) ->
+  forall D p cf wl ext xs ys tbl i j, 0 < cf -> 0 < wl ->
+  axis xs -> axis ys -> (2 <= length xs)%nat -> (2 <= length ys)%nat ->
+  (i < length xs)%nat -> (j < length ys)%nat -> 0 < at2 tbl i j ->
+  exists q, eval2 Q lg ex (cubic2 D) (conv p cf wl) ext xs ys tbl (nth i xs 0) (nth j ys 0) = Val q
+            /\ Qabs (q - conv p cf wl (at2 tbl i j)) <= eps * conv p cf wl (at2 tbl i j).
+Proof. intros; apply (eval2_node_bicubic_rounded lg ex eps); auto using conv_pos. Qed.
+Print Assumptions C07_rate2_node_bicubic_rounded.
 
 Theorem C07_log_laws_satisfiable : log_laws (fun v => v) Qabs Qmult.
 Proof. exact log_laws_witness. Qed.
